@@ -632,6 +632,8 @@ class HistoryGen:
             kinds.append("interrupt")
         rec["ops"] = self.ops
         rec["fault_enum"] = {"targets": [target], "kinds": kinds, "phases": ["early", "late"]}
+        if self.p.get("max_positions"):
+            rec["fault_enum"]["max_positions"] = self.p["max_positions"]
         return rec
 
 
@@ -753,6 +755,14 @@ PROFILES = {
         "approx_simple_constraints": True,
     },
     "C17": {
+        "frontends": [("Solver", 4), ("SolverCacheless", 4), ("SolverComposite", 3), ("SolverHybrid", 2), ("SolverReplacement", 2)],
+        "length": (4, 18),
+        "fault_enum": True,
+        "weights": {"branch": 8, "forget": 0, "gc": 0},
+        "extra_pct": 20,
+        "max_positions": 15,
+    },
+    "C17all": {   # thorough: every check position of the target operation
         "frontends": [("Solver", 4), ("SolverCacheless", 4), ("SolverComposite", 3), ("SolverHybrid", 2), ("SolverReplacement", 2)],
         "length": (4, 18),
         "fault_enum": True,
